@@ -774,7 +774,8 @@ def check_C16(world, hist, pred):
             if st in ERROR_CLASS and c.find("error") is None:
                 out.append(V("C16", "missing-failure-entry", "error-without-error:" + st, scen=n["id"]))
             entry = c.find("failure") if st == "failed" else (c.find("error") if st in ERROR_CLASS else None)
-            if entry is not None and not pred.scen.get(n["id"], {}).get("cleanup_failed"):
+            cleanup_unknown = pred.dead and any(e["kind"] == "cleanup" and e.get("raised") for e in hist["events"])
+            if entry is not None and not pred.scen.get(n["id"], {}).get("cleanup_failed") and not cleanup_unknown:
                 # (a cleanup error is neither a step nor a hook: only the entry itself is required)
                 blob = (entry.get("message") or "") + "\n" + "".join(entry.itertext())
                 resp = [s for s in n["steps"] if s["status"] in ERROR_CLASS or s["status"] == "failed"]
